@@ -1,15 +1,180 @@
 (* C19 - Stream statistics equal a recount of the observed traffic.
-   Statements only; proofs are in Proofs/StatsProofs.v.  (work in progress) *)
-From IV Require Import Base.Word Model.Unwrapper Model.Ntp Model.StatsRecorder Spec.StatsSpec Proofs.StatsProofs.
+   Statements only; proofs are in Proofs/StatsProofs.v.
 
-Section C19.
-  Context {F : Type} (fzero : F) (k_units : Z -> Z -> Z) (k_jitter : Z -> F -> Z -> F)
-          (k_rjitter : Z -> Z -> F) (k_frac : Z -> F) (k_delay : Z -> Z) (k_ntpfrac : Z -> Z).
-  Notation run := (run fzero k_units k_jitter k_rjitter k_frac k_delay k_ntpfrac).
+   [run fzero ku kj krj kf kd kn ssrc rate evs] is the recorder for [ssrc]
+   (Model/StatsRecorder.v, pkg/stats/stats_recorder.go after the fix: commits)
+   after the event history [evs]; GetStats() reads its fields.  Every theorem
+   is for EVERY history (so for every query point: a query after k events is
+   the theorem at the prefix of length k, see C19_every_query_point), every
+   SSRC, every clock rate and every choice of the six float kernels.  The
+   right-hand sides are the recount of Spec/StatsSpec.v: filter / length / sum
+   / last over the event list, never the recorder's state.
 
-  Theorem C19_outbound_counts : forall ssrc rate evs,
-    let b := sb (run ssrc rate evs) in
-    o_sent b = spec_out_sent ssrc evs /\ o_bytes b = spec_out_bytes ssrc evs /\ o_hdr b = spec_out_hdr ssrc evs.
-  Proof. intros ssrc rate evs. pose proof (invB_run fzero k_units k_jitter k_rjitter k_frac k_delay k_ntpfrac ssrc rate evs) as H. unfold invB in H. tauto. Qed.
-End C19.
+   uint32 counters are exact including their wrap at 2^32; uint64 counters and
+   int64 durations are unbounded Z (trusted base: < 2^63 bytes / ns).
+   Float-valued figures are stated through the kernel applied to the integer
+   field of the most recent matching report; that the Go kernels compute the
+   WebRTC-stats formula (j/clockRate, fl/256, ts - DLSR/65536 s - NTP time)
+   within 2^-50 relative / 3 ns is VALIDATED by the oracle on every generated
+   case, not proved (label: partial for the float layer only). *)
+From IV Require Import Base.Word Model.Unwrapper Model.Ntp Model.StatsRecorder Model.StatsKernels
+  Model.StatsInterceptor Spec.StatsSpec Proofs.UnwrapperProofs Proofs.StatsProofs Proofs.StatsInterceptorProofs Check.C19Check.
+
+(* packets / bytes / header bytes sent, for that SSRC only *)
+Theorem C19_outbound_counts : forall F (fzero : F) ku kj krj kf kd kn ssrc rate evs,
+  let b := sb (run fzero ku kj krj kf kd kn ssrc rate evs) in
+  o_sent b = spec_out_sent ssrc evs /\ o_bytes b = spec_out_bytes ssrc evs /\ o_hdr b = spec_out_hdr ssrc evs.
+Proof. intros. exact (thm_outbound_counts fzero ku kj krj kf kd kn ssrc rate evs). Qed.
 Print Assumptions C19_outbound_counts.
+
+(* packets / bytes / header bytes received and the last arrival time, for that SSRC only *)
+Theorem C19_inbound_counts : forall F (fzero : F) ku kj krj kf kd kn ssrc rate evs,
+  let a := sa (run fzero ku kj krj kf kd kn ssrc rate evs) in
+  i_recv a = spec_in_recv ssrc evs /\ i_hdr a = spec_in_hdr ssrc evs /\
+  i_bytes a = spec_in_bytes ssrc evs /\ i_last a = spec_in_last ssrc evs.
+Proof. intros. exact (thm_inbound_counts fzero ku kj krj kf kd kn ssrc rate evs). Qed.
+Print Assumptions C19_inbound_counts.
+
+(* packets lost = expected - received, expected = highest - first + 1 over the
+   unwrapped sequence numbers (C20's unwrapper) of the packets of that SSRC *)
+Theorem C19_lost : forall F (fzero : F) ku kj krj kf kd kn ssrc rate evs,
+  i_lost (sa (run fzero ku kj krj kf kd kn ssrc rate evs)) = spec_in_lost ssrc evs.
+Proof. intros. exact (thm_lost fzero ku kj krj kf kd kn ssrc rate evs). Qed.
+Print Assumptions C19_lost.
+
+(* ... where, for well-typed input (sequence numbers are uint16), "highest" is
+   the maximum and "first" the first of the unwrapped range *)
+Theorem C19_lost_over_unwrapped_range : forall F (fzero : F) ku kj krj kf kd kn ssrc rate evs,
+  Forall wf_event evs -> in_pks ssrc evs <> [] ->
+  let U := in_unwrapped ssrc evs in
+  exists first highest,
+    hd_error U = Some first /\ In highest U /\ (forall x, In x U -> x <= highest) /\
+    i_lost (sa (run fzero ku kj krj kf kd kn ssrc rate evs)) = (highest - first + 1) - zlen U.
+Proof. intros F fzero ku kj krj kf kd kn ssrc rate evs. exact (thm_lost_range fzero ku kj krj kf kd kn ssrc rate evs). Qed.
+Print Assumptions C19_lost_over_unwrapped_range.
+
+(* non-vacuity: 65534, 65535, then 1 across the wrap (0 never arrives; a
+   foreign SSRC in between is ignored): range 65534..65537, one packet lost *)
+Example C19_lost_example :
+  let evs := [InRTP 10 7 65534 0 12 100; InRTP 20 7 65535 0 12 100; InRTP 25 8 3 0 12 100; InRTP 30 7 1 0 12 100] in
+  Forall wf_event evs /\ in_pks 7 evs <> [] /\ in_unwrapped 7 evs = [65534; 65535; 65537] /\ spec_in_lost 7 evs = 1.
+Proof.
+  cbv zeta. split; [repeat constructor; simpl; lia|]. split; [discriminate|]. split; reflexivity.
+Qed.
+Print Assumptions C19_lost_example.
+
+(* NACK / PLI / FIR that WE sent about the incoming stream ssrc (InboundRTPStreamStats),
+   each mod 2^32: NACK and PLI addressed by media SSRC, FIR by its FCI entries *)
+Theorem C19_feedback_counts_in : forall F (fzero : F) ku kj krj kf kd kn ssrc rate evs,
+  let c := sc (run fzero ku kj krj kf kd kn ssrc rate evs) in
+  i_fir c = spec_fb_sent ssrc is_fir evs /\ i_pli c = spec_fb_sent ssrc is_pli evs /\
+  i_nack c = spec_fb_sent ssrc is_nack evs.
+Proof. intros. exact (thm_feedback_in fzero ku kj krj kf kd kn ssrc rate evs). Qed.
+Print Assumptions C19_feedback_counts_in.
+
+(* NACK / PLI / FIR that we RECEIVED about the outgoing stream ssrc (OutboundRTPStreamStats),
+   wherever they stand in their compound packet (F21) *)
+Theorem C19_feedback_counts_out : forall F (fzero : F) ku kj krj kf kd kn ssrc rate evs,
+  let d := sd (run fzero ku kj krj kf kd kn ssrc rate evs) in
+  o_fir d = spec_fb_recv ssrc is_fir evs /\ o_pli d = spec_fb_recv ssrc is_pli evs /\
+  o_nack d = spec_fb_recv ssrc is_nack evs.
+Proof. intros. exact (thm_feedback_out fzero ku kj krj kf kd kn ssrc rate evs). Qed.
+Print Assumptions C19_feedback_counts_out.
+
+(* remote loss, jitter, fraction lost: from the most recent reception report
+   about ssrc (in any SR or RR of any compound); remote packets received:
+   highest - first sequence number we sent + 1 - lost (floored at 0) of the
+   most recent such report that arrived after we had sent a packet *)
+Theorem C19_remote_from_latest_matching_report : forall F (fzero : F) ku kj krj kf kd kn ssrc rate evs,
+  let d := sd (run fzero ku kj krj kf kd kn ssrc rate evs) in
+  match spec_last_report ssrc evs with
+  | Some (Rep _ fr lost _ jit _ _) => ri_lost d = lost /\ ri_jit d = krj rate jit /\ ri_frac d = kf fr
+  | None => ri_lost d = 0 /\ ri_jit d = fzero /\ ri_frac d = fzero
+  end /\
+  ri_recv d = spec_remote_recv ssrc evs.
+Proof. intros. exact (thm_remote_latest fzero ku kj krj kf kd kn ssrc rate evs). Qed.
+Print Assumptions C19_remote_from_latest_matching_report.
+
+(* "matching" loses nothing: the reports counted are ALL reception reports
+   about ssrc in the SR/RR packets of the compound *)
+Theorem C19_matching_reports_are_all_reports_about_ssrc : forall ssrc pkts,
+  reps_for ssrc pkts = filter (fun r => rep_ssrc r =? ssrc) (flat_map reps_of pkts).
+Proof. exact thm_reps_for. Qed.
+Print Assumptions C19_matching_reports_are_all_reports_about_ssrc.
+
+(* round-trip time from LSR/DLSR: one sample per report about ssrc with
+   non-zero LSR and DLSR whose LSR equals the middle 32 bits of one of the last
+   five sender reports we sent for ssrc (the most recent such one); sample =
+   arrival - DLSR - NTP time of that report; RoundTripTime is the most recent
+   sample, TotalRoundTripTime their sum, RoundTripTimeMeasurements their number *)
+Theorem C19_rtt_lsr : forall F (fzero : F) ku kj krj kf kd kn ssrc rate evs,
+  let d := sd (run fzero ku kj krj kf kd kn ssrc rate evs) in
+  ri_meas d = zlen (lsr_samples ssrc evs) /\
+  ri_total d = zsum (map (rtt3 kd kn) (lsr_samples ssrc evs)) /\
+  ri_rtt d = match last_opt (lsr_samples ssrc evs) with Some smp => rtt3 kd kn smp | None => 0 end.
+Proof. intros. exact (thm_rtt_lsr fzero ku kj krj kf kd kn ssrc rate evs). Qed.
+Print Assumptions C19_rtt_lsr.
+
+(* the same from DLRR sub-blocks about ssrc against the last five receiver
+   reference times we sent (one sample per sub-block) *)
+Theorem C19_rtt_dlrr : forall F (fzero : F) ku kj krj kf kd kn ssrc rate evs,
+  let d := sd (run fzero ku kj krj kf kd kn ssrc rate evs) in
+  ro_meas d = zlen (dlrr_samples ssrc evs) /\
+  ro_total d = zsum (map (rtt3 kd kn) (dlrr_samples ssrc evs)) /\
+  ro_rtt d = match last_opt (dlrr_samples ssrc evs) with Some smp => rtt3 kd kn smp | None => 0 end.
+Proof. intros. exact (thm_rtt_dlrr fzero ku kj krj kf kd kn ssrc rate evs). Qed.
+Print Assumptions C19_rtt_dlrr.
+
+(* the sample formula is the WebRTC-stats one whenever the two duration kernels are exact *)
+Theorem C19_rtt_formula : forall kd kn ts dly n,
+  rtt3 kd kn (ts, dly, n) = ts - kd dly - to_time kn n.
+Proof. reflexivity. Qed.
+Print Assumptions C19_rtt_formula.
+
+(* remote sender figures (not named in the property text; pion's reading of
+   "matching": an SR sent by ssrc or carrying a report about ssrc) *)
+Theorem C19_remote_outbound_from_latest_sr : forall F (fzero : F) ku kj krj kf kd kn ssrc rate evs,
+  let d := sd (run fzero ku kj krj kf kd kn ssrc rate evs) in
+  ro_reports d = spec_reports_sent ssrc evs /\
+  match spec_last_sr ssrc evs with
+  | Some (PSR _ ntp _ pc oc _) => ro_sent d = pc /\ ro_bytes d = oc /\ ro_ts d = Some (to_time kn ntp)
+  | _ => ro_sent d = 0 /\ ro_bytes d = 0 /\ ro_ts d = None
+  end.
+Proof. intros. exact (thm_remote_sr fzero ku kj krj kf kd kn ssrc rate evs). Qed.
+Print Assumptions C19_remote_outbound_from_latest_sr.
+
+(* every query point: the state read after the k-th event (what the
+   correspondence check compares, [run_all]) is [run] of the first k events, to
+   which all theorems above apply *)
+Theorem C19_every_query_point : forall F (fzero : F) ku kj krj kf kd kn ssrc rate evs k s,
+  nth_error (run_all ku kj krj kf kd kn ssrc rate (st0 fzero) evs) k = Some s ->
+  s = run fzero ku kj krj kf kd kn ssrc rate (firstn (S k) evs).
+Proof. intros F fzero ku kj krj kf kd kn ssrc rate evs k s H. exact (run_all_nth ku kj krj kf kd kn ssrc rate evs _ k s H). Qed.
+Print Assumptions C19_every_query_point.
+
+(* the integer part of the oracle that bin/check applies to the
+   implementation's outputs is exactly the Prop-level recount ... *)
+Theorem C19_oracle_counts_iff : forall s evs o, counts_ok s evs o = true <-> counts_spec s evs o.
+Proof. exact counts_ok_iff. Qed.
+Print Assumptions C19_oracle_counts_iff.
+
+(* ... and failure code 0 implies it *)
+Theorem C19_oracle_zero_implies_counts : forall s rate evs o,
+  spec_code s rate evs o = 0%nat -> counts_spec s evs o.
+Proof. intros s rate evs o H. apply counts_ok_iff. exact (spec_code_zero_counts s rate evs o H). Qed.
+Print Assumptions C19_oracle_zero_implies_counts.
+
+(* several SSRCs through one interceptor (Model/StatsInterceptor.v: recorder map,
+   RTP to the recorder of the stream it travels on, RTCP fanned out to all):
+   Get(ssrc) is nil for a stream never bound, otherwise the single-recorder
+   model - to which all theorems above apply - run with the clock rate of the
+   first bind on the events "since the recorder became active": every RTCP
+   compound, and the RTP of that stream, after the first bind *)
+Theorem C19_interceptor_is_per_stream_recorder : forall F (fzero : F) ku kj krj kf kd kn ssrc h,
+  iget fzero ku kj krj kf kd kn ssrc h =
+  match first_rate ssrc h with
+  | Some rate => Some (run fzero ku kj krj kf kd kn ssrc rate (project ssrc false h))
+  | None => None
+  end.
+Proof. intros. exact (iget_spec fzero ku kj krj kf kd kn ssrc h). Qed.
+Print Assumptions C19_interceptor_is_per_stream_recorder.
